@@ -158,3 +158,57 @@ Example c17_deadline_releases_instance :
     map rets (ths x) = [[(KSend, RErr eNil); (KSend, RErr eDE)]; [(KSetDl, RErr eNil)]] /\
     all_finished x = true.
 Proof. eexists. split; [vm_compute; reflexivity|]. vm_compute. auto. Qed.
+
+(* ================================================================== Part 2: Client lifecycle *)
+From Hop Require Import ConcBase ConcUtil Lifecycle LifecycleProofs LifecycleLive.
+Local Open Scope nat_scope.
+
+(* for every number of goroutines calling Handshake/Read/Write/Close in any order, live or dead
+   peer, with or without a handshake timeout: the handshake body is entered at most once *)
+Theorem c17_handshake_runs_once : forall pe tm cr progs x,
+  creachable pe tm cr progs x -> hs_runs (csd x) <= 1.
+Proof. exact handshake_runs_once. Qed.
+Print Assumptions c17_handshake_runs_once.
+
+Theorem c17_handshake_nil_means_session : forall pe tm cr progs x, creachable pe tm cr progs x ->
+  forall i t, nth_error (cths x) i = Some t -> In (CHandshake, 0%N) (crets t) -> handle_set (csd x) = true.
+Proof. exact handshake_nil_means_session. Qed.
+Print Assumptions c17_handshake_nil_means_session.
+
+(* Close is idempotent: the socket is closed at most once and every caller — the elected one and
+   every waiter — reports the result of that one close *)
+Theorem c17_close_idempotent_same_result : forall pe tm cr progs x, creachable pe tm cr progs x ->
+  conn_closes (csd x) <= 1 /\
+  forall i t r, nth_error (cths x) i = Some t -> In (CClose, r) (crets t) -> r = cr.
+Proof. exact close_same_result. Qed.
+Print Assumptions c17_close_idempotent_same_result.
+
+(* completion channels publish: results are stored before the channel is closed *)
+Theorem c17_results_published_before_signal : forall pe tm cr progs x, creachable pe tm cr progs x ->
+  (close_done (csd x) = true -> close_err (csd x) = Some cr /\ conn_closed (csd x) = true /\ is_closing (cstate (csd x)) = true) /\
+  (hs_done (csd x) = true -> hs_runs (csd x) = 1) /\
+  (cstate (csd x) = sError -> cerr (csd x) <> 0%N).
+Proof. exact results_published_before_signal. Qed.
+Print Assumptions c17_results_published_before_signal.
+
+(* close-before-wait: once a Close has been elected, any state in which nothing can move has
+   every call returned — even with a dead peer and no handshake timeout (the handshake's socket
+   read, the receive loop, waiting Handshake/Close callers and blocked readers are all released) *)
+Theorem c17_client_close_releases_everyone : forall pe tm cr progs x, creachable pe tm cr progs x ->
+  is_closing (cstate (csd x)) = true -> cterminal x = true -> call_finished x = true.
+Proof. exact close_returns. Qed.
+Print Assumptions c17_client_close_releases_everyone.
+
+(* non-vacuity: dead peer, no timeout; T0 is parked in the handshake read, T1 waits for the
+   handshake, T2 reads; then Close (T3) releases all of them *)
+Example c17_client_close_instance :
+  exists x, crun (cinit false false 0 [[CHandshake]; [CHandshake]; [CRead]; [CClose]])
+      (map CT [0;0;0; 1;1; 2;2;2]%nat) = Some x /\
+    map cpcv (cths x) = [H_io; H_wait; H_wait; CIdle] /\ cterminal (mkCSt (csd x) (firstn 3 (cths x))) = true.
+Proof. eexists. split; [vm_compute; reflexivity|]. vm_compute. auto. Qed.
+Example c17_client_close_instance_released :
+  exists x, crun (cinit false false 0 [[CHandshake]; [CHandshake]; [CRead]; [CClose]])
+      (map CT ([0;0;0; 1;1; 2;2;2] ++ [3;3;3;3] ++ [0;0;0;0;0] ++ [1;1] ++ [2;2] ++ [3;3;3;3;3;3])%nat) = Some x /\
+    call_finished x = true /\ is_closing (cstate (csd x)) = true /\
+    map crets (cths x) = [[(CHandshake, 1)]; [(CHandshake, 1)]; [(CRead, 1)]; [(CClose, 0)]]%N.
+Proof. eexists. split; [vm_compute; reflexivity|]. vm_compute. auto. Qed.
